@@ -3,6 +3,7 @@ package main
 import (
 	"fmt"
 	"go/types"
+	"os"
 	"strconv"
 	"strings"
 
@@ -59,8 +60,12 @@ func (vc *VC) call(fr *frame, st *State, site ssa.Instruction, c *ssa.CallCommon
 		cv := vc.valueOf(fr, callee).(*ClosureVal)
 		return mkResult(vc.inlineCall(fr, st, site, cv.fn, append(args, cv.bindings...), resT))
 	}
-	if cv, ok := vc.valueOf(fr, c.Value).(*ClosureVal); ok {
+	if cv, ok := vc.valueOf(fr, c.Value).(*ClosureVal); ok && cv.fn.Blocks != nil {
 		return mkResult(vc.inlineCall(fr, st, site, cv.fn, append(args, cv.bindings...), resT))
+	}
+	if vc.contract != nil && vc.contract.Iterates != nil && c.Signature().Results().Len() == 1 {
+		// the only opaque function value a forwarder can call is its delegate
+		return vc.delegateCall(fr, st, site, args)
 	}
 	return mkResult(vc.unknownCall(fr, st, site, "func value", resT))
 }
@@ -168,7 +173,8 @@ func (vc *VC) havocAll(st *State) {
 	vc.script.Assume(And(Not(Select(na, Zero)), Forall([]Term{r}, Implies(Select(oldAlloc, r), Select(na, r)), []Term{Select(oldAlloc, r)})))
 	nb := vc.newBase(na)
 	nh := &Heap{base: nb, c: map[string]Term{allocComp: na}}
-	for name, info := range vc.comps {
+	for _, name := range sortedKeys(vc.comps) {
+		info := vc.comps[name]
 		if info.Ghost && strings.HasPrefix(name, "ghost:") {
 			nh.c[name] = vc.hget(st.heap, name)
 		}
@@ -265,7 +271,18 @@ func (vc *VC) appendOp(fr *frame, st *State, site ssa.Instruction, c *ssa.CallCo
 	if el.K == KUnit {
 		return SliceVal{Arr: s.Arr, Off: s.Off, Len: newLen, Cap: Ite(Le(newLen, s.Cap), s.Cap, newLen), Elem: el}
 	}
-	comp := vc.elemsComp(el)
+	var lanes []lane
+	func() {
+		defer func() {
+			if r := recover(); r != nil {
+				if ee, isEval := r.(evalError); isEval {
+					vc.fail("%s", ee.msg)
+				}
+				panic(r)
+			}
+		}()
+		lanes = vc.elemLanes(el)
+	}()
 	fits := vc.script.Define(name+":fits", Le(newLen, s.Cap))
 	fresh := vc.script.Declare(name+":arr", SInt)
 	if vc.freshRefs == nil {
@@ -276,40 +293,42 @@ func (vc *VC) appendOp(fr *frame, st *State, site ssa.Instruction, c *ssa.CallCo
 	vc.script.Assume(Implies(st.pc, And(Gt(fresh, Zero), Not(Select(alloc, fresh)))))
 	ncap := vc.script.Declare(name+":cap", SInt)
 	vc.script.Assume(Ge(ncap, newLen))
-	elems := vc.hget(st.heap, comp)
-	// resulting array contents: positions [off, off+len) keep s, [off+len, off+len+addlen) take add
-	res := vc.script.Declare(name+":elems", ArrSort(SInt, el.SortOf()))
 	p := Term{"p!", SInt}
 	arr := vc.script.DeclareEq(name+":arr", Ite(fits, s.Arr, fresh))
 	off := vc.script.DeclareEq(name+":off", Ite(fits, s.Off, Zero))
-	// absolute positions (no arithmetic inside the trigger)
-	srcOld := Select(Select(elems, s.Arr), Add(Sub(p, off), s.Off))
-	srcAdd := Select(Select(elems, add.Arr), Add(add.Off, Sub(Sub(p, off), s.Len)))
-	vc.script.Assume(Implies(st.pc, Forall([]Term{p}, And(
-		Implies(And(Le(off, p), Lt(p, Add(off, s.Len))), Eq(Select(res, p), srcOld)),
-		Implies(And(Le(Add(off, s.Len), p), Lt(p, Add(off, newLen))), Eq(Select(res, p), srcAdd)),
-		// in place: everything outside the appended window is unchanged
-		Implies(And(fits, Or(Lt(p, Add(off, s.Len)), Ge(p, Add(off, newLen)))), Eq(Select(res, p), Select(Select(elems, s.Arr), p))),
-	), []Term{Select(res, p)})))
-	if el.SortOf() == SInt {
-		// append lemma for the set view of slices
-		y := Term{"y!", SInt}
-		oldA := Select(elems, s.Arr)
-		addA := Select(elems, add.Arr)
-		addMem := vc.inseq(addA, add.Off, add.Len, y)
-		if n, err := strconv.Atoi(add.Len.S); err == nil && n >= 0 && n <= 4 {
-			var alts []Term
-			for i := 0; i < n; i++ {
-				alts = append(alts, Eq(Select(addA, Add(add.Off, IntLit(int64(i)))), y))
+	for _, ln := range lanes {
+		elems := vc.hget(st.heap, ln.comp)
+		// resulting array contents: [off, off+len) keep s, [off+len, off+newLen) take add
+		res := vc.script.Declare(name+":elems", ArrSort(SInt, ln.sort))
+		// absolute positions (no arithmetic inside the trigger)
+		srcOld := Select(Select(elems, s.Arr), Add(Sub(p, off), s.Off))
+		srcAdd := Select(Select(elems, add.Arr), Add(add.Off, Sub(Sub(p, off), s.Len)))
+		vc.script.Assume(Implies(st.pc, Forall([]Term{p}, And(
+			Implies(And(Le(off, p), Lt(p, Add(off, s.Len))), Eq(Select(res, p), srcOld)),
+			Implies(And(Le(Add(off, s.Len), p), Lt(p, Add(off, newLen))), Eq(Select(res, p), srcAdd)),
+			// in place: everything outside the appended window is unchanged
+			Implies(And(fits, Or(Lt(p, Add(off, s.Len)), Ge(p, Add(off, newLen)))), Eq(Select(res, p), Select(Select(elems, s.Arr), p))),
+		), []Term{Select(res, p)})))
+		if ln.sort == SInt && len(lanes) == 1 {
+			// append lemma for the set view of slices
+			y := Term{"y!", SInt}
+			oldA := Select(elems, s.Arr)
+			addA := Select(elems, add.Arr)
+			addMem := vc.inseq(addA, add.Off, add.Len, y)
+			if n, err := strconv.Atoi(add.Len.S); err == nil && n >= 0 && n <= 4 {
+				var alts []Term
+				for i := 0; i < n; i++ {
+					alts = append(alts, Eq(Select(addA, Add(add.Off, IntLit(int64(i)))), y))
+				}
+				addMem = Or(alts...)
 			}
-			addMem = Or(alts...)
+			vc.script.Assume(Implies(st.pc, Forall([]Term{y},
+				Eq(vc.inseq(res, off, newLen, y), Or(vc.inseq(oldA, s.Off, s.Len, y), addMem)),
+				[]Term{vc.inseq(res, off, newLen, y)})))
 		}
-		vc.script.Assume(Implies(st.pc, Forall([]Term{y},
-			Eq(vc.inseq(res, off, newLen, y), Or(vc.inseq(oldA, s.Off, s.Len, y), addMem)),
-			[]Term{vc.inseq(res, off, newLen, y)})))
+		vc.hset(st, ln.comp, Store(elems, arr, res))
+		vc.noteWrite(ln.comp, Term{})
 	}
-	vc.hset(st, comp, Store(elems, arr, res))
-	vc.noteWrite(comp, Term{})
 	vc.hset(st, allocComp, Store(alloc, fresh, True))
 	vc.noteWrite(allocComp, Term{})
 	return SliceVal{Arr: arr, Off: off, Len: newLen, Cap: vc.script.Define(name+":cap", Ite(fits, s.Cap, ncap)), Elem: el}
@@ -429,7 +448,8 @@ func (vc *VC) flattenTargets(loc Loc, ft SType) []modTarget {
 			out = append(out, vc.flattenTargets(Loc{loc.Prefix + "." + f.Name(), loc.Idx}, FromGo(f.Type()))...)
 		}
 		// ghost fields of the struct type
-		for k, g := range vc.w.ghosts {
+		for _, k := range sortedKeys(vc.w.ghosts) {
+			g := vc.w.ghosts[k]
 			pre := typeKey(ft.Go) + "."
 			if strings.HasPrefix(k, pre) && !strings.Contains(k[len(pre):], ".") {
 				out = append(out, vc.flattenTargets(Loc{loc.Prefix + "." + k[len(pre):], loc.Idx}, g)...)
@@ -475,7 +495,7 @@ func (vc *VC) resolveCompName(env *Env, name string) []string {
 	full := tname + "." + rest
 	// flatten if the named field is a struct or slice
 	var out []string
-	for c := range vc.comps {
+	for _, c := range sortedKeys(vc.comps) {
 		if c == full || strings.HasPrefix(c, full+".") || strings.HasPrefix(c, full+"#") {
 			out = append(out, c)
 		}
@@ -586,7 +606,7 @@ func (vc *VC) contractCall(fr *frame, st *State, site ssa.Instruction, fc *FuncC
 	if !fc.HasModifies && body != nil && !fc.Pure {
 		// no modifies clause: fall back to the syntactic write summary of the body (whole components)
 		sum := vc.summarize(body)
-		for c := range sum.writes {
+		for _, c := range sortedKeys(sum.writes) {
 			if c == allocComp {
 				continue
 			}
@@ -604,7 +624,7 @@ func (vc *VC) contractCall(fr *frame, st *State, site ssa.Instruction, fc *FuncC
 		if sum.allocs {
 			allocates = true
 		}
-		for c := range sum.writes {
+		for _, c := range sortedKeys(sum.writes) {
 			freshComps = append(freshComps, c)
 		}
 	}
@@ -614,7 +634,7 @@ func (vc *VC) contractCall(fr *frame, st *State, site ssa.Instruction, fc *FuncC
 	// ghost assignments at return may touch ghost fields of objects the callee allocated
 	for _, gs := range fc.GhostSets {
 		if sel, ok := gs.Lhs.(ESel); ok {
-			for g := range vc.w.ghosts {
+			for _, g := range sortedKeys(vc.w.ghosts) {
 				if strings.HasSuffix(g, "."+sel.Name) {
 					vc.registerComp(g, compInfo{Sort: ArrSort(SInt, vc.w.ghosts[g].SortOf()), Depth: 1, Ghost: true})
 					freshComps = append(freshComps, g)
@@ -622,6 +642,9 @@ func (vc *VC) contractCall(fr *frame, st *State, site ssa.Instruction, fc *FuncC
 				}
 			}
 		}
+	}
+	if os.Getenv("GOVC_DEBUG") != "" {
+		fmt.Fprintf(os.Stderr, "call %s in %s: allocates=%v fresh=%v targets=%v\n", fc.Key, vc.topKey, allocates, freshComps, targets)
 	}
 	vc.applyHavoc(st, targets, allocates, freshComps)
 	// results
@@ -661,12 +684,13 @@ func (vc *VC) compsWithPrefix(env *Env, tname string) []string {
 	vc.registerStructComps(canonicalPrefix(*st), *st)
 	pre := canonicalPrefix(*st) + "."
 	var out []string
-	for c := range vc.comps {
+	for _, c := range sortedKeys(vc.comps) {
 		if strings.HasPrefix(c, pre) {
 			out = append(out, c)
 		}
 	}
-	for k, a := range vc.w.ghostAlias {
+	for _, k := range sortedKeys(vc.w.ghostAlias) {
+		a := vc.w.ghostAlias[k]
 		if strings.HasPrefix(k, pre) {
 			if g, ok := vc.w.ghosts[k]; ok {
 				vc.registerComp(a, compInfo{Sort: ArrSort(SInt, g.SortOf()), Depth: 1, Ghost: true})
@@ -706,7 +730,8 @@ func (vc *VC) registerStructComps(prefix string, st SType) {
 		reg(s.Field(i).Name(), FromGo(s.Field(i).Type()))
 	}
 	pre := typeKey(st.Go) + "."
-	for k, g := range vc.w.ghosts {
+	for _, k := range sortedKeys(vc.w.ghosts) {
+		g := vc.w.ghosts[k]
 		if strings.HasPrefix(k, pre) && !strings.Contains(k[len(pre):], ".") {
 			reg(k[len(pre):], g)
 		}
